@@ -196,6 +196,7 @@ pub fn def(tier: Tier) -> CheckDef {
             "a line break directly after `;` is a second terminator (`;` can end and start an expression), so layouts never put one there",
         ],
         idle_limit_s: 300,
+        needs_cli: false,
         parts: vec![
             Part {
                 name: "examples",
